@@ -7,7 +7,7 @@ from ..runner import Ob, ok, viol, inconc
 from ..kern import P
 META = dict(
     functions=['all Goldilocks (copy|add|sub|mul)_(batch|avx|avx512) overloads found by the AST census (listed per obligation)', 'Goldilocks::parcpy', 'Goldilocks::parSetZero'],
-    bounds={'quick': 'overloads: none on values, strides and index lists (all 64-bit values); parcpy/parSetZero: chunk arithmetic for all size < 2^60 and all int thread counts (symbolic), data movement executed for size 0..9 x threads {-3,0,1,2,3,8,100}', 'thorough': 'data movement for size 0..33'},
+    bounds={'quick': 'overloads: none on values, strides and index lists (all 64-bit values); parcpy/parSetZero: chunk arithmetic for all size < 2^60 and all int thread counts (symbolic), data movement executed for size 0..33 x threads {-3,0,1,2,3,8,100}', 'thorough': 'same'},
     outside=['aliasing between argument arrays', 'parcpy/parSetZero with size >= 2^60 (the ceiling expression size + n - 1 wraps only beyond 2^64 - 2^31)', 'the property text counts 191 overloads; the census of the shipped headers finds the number reported in coverage.census_overloads (commented-out AVX512 array forms have no definition and no behaviour)'],
     stubs=[], assumptions=C16.META['assumptions'],
     trusted_base=C16.META['trusted_base'])
@@ -40,7 +40,7 @@ def obligations(ctx):
     META['_census'] = len(ms); META['_undefined'] = [dict(name=m['name'], line=m['line']) for m in ms if not m['defined']]
     for which in ('parcpy', 'parSetZero'):
         obs.append(Ob('%s/chunk-arithmetic' % which, ob_chunks, (which,)))
-        for size in range(0, (34 if ctx.thorough else 10)):
+        for size in range(0, 34):
             for nt in (-3, 0, 1, 2, 3, 8, 100):
                 obs.append(Ob('%s/move/size%d/t%d' % (which, size, nt), ob_move, (which, size, nt)))
     return obs + C16.contract_obs(ctx)
